@@ -244,6 +244,11 @@ def check(prog, rep):
     r5.add("transfer|lookup", bool(lk) and U(lk[0].value) == "ligand.atoms[pdb_atom.name]", f"MOL2 atom looked up as {U(lk[0].value) if lk else '?'}", wn)
     gates = [(U(tst), p) for tst, p in guards_of(stores[0]) if "args.ligand" in U(tst)]
     r5.add("transfer|gated", gates == [("args.ligand is not None", True)], f"block runs under {gates}", wn)
+    from .shared import rule_ligand_block_model
+    rep.guarded(rule_ligand_block_model, prog, rep, "R6")
+    from .c03 import _removed_hydrogens_are_rebuilt
+    r7 = rep.rule("R7", "the ligand's own atoms reach the transfer: hydrogens are stripped only from residues that get them rebuilt", floor=1)
+    rep.guarded(_removed_hydrogens_are_rebuilt, prog, r7)
 
 
 def _stmt(n):
